@@ -13,7 +13,7 @@ From stdpp Require Import gmap list numbers.
 From Coq Require Import ZArith NArith.
 From Verif Require Tx.Store Tx.Ledger Tx.Hist Tx.Node.
 From Verif Require Import Generated.SyncFacts Sync.Sync Sync.SyncProofs Sync.SyncStore.
-From Verif Require Import Sync.BitcoindReorg Sync.BitcoindReorgProofs.
+From Verif Require Import Sync.BitcoindReorg Sync.BitcoindReorgProofs Sync.BitcoindRescan Sync.BitcoindRescanProofs.
 Local Open Scope Z_scope.
 
 (** What "the wallet is consistent with best chain [c], followed from height
@@ -443,6 +443,85 @@ Proof.
   - repeat split; vm_compute; reflexivity.
   - repeat split; vm_compute; reflexivity.
   - split; [discriminate|exact I].
+Qed.
+
+(** * The bitcoind client's RESCAN under a reorganisation during the rescan
+
+    A wallet that starts against a bitcoind backend is brought to the node's
+    tip by BitcoindClient.rescan (model Sync/BitcoindRescan.v, proofs
+    Sync/BitcoindRescanProofs.v).  Premise regenerated from the source:
+    [bitcoind_rescan_steps_down = true] - the walk back decrements the loop
+    height for every block it disconnects and asks the node for the header
+    below the start block as soon as its header list is empty.
+
+    The rescan has notified the old branch [old_top] (tip first, above the
+    common ancestor [fork], all still in its header list); the node's best
+    chain is now [fork], [rev new_low] (new blocks at the heights of
+    [old_top], pairwise different from them), then [nb :: new_high].  For
+    every such tree, every depth and every length of the new branch, the loop
+    emits exactly [emit c e]: one BlockDisconnected per notified block of the
+    old branch, tip first, each with its own hash and height, then one
+    BlockConnected per block of the new branch upward. *)
+Theorem C15_bitcoind_rescan_follows_reorg : forall t anc fork rest deeper old_top new_low nb new_high,
+  let c := anc ++ rev old_top in
+  let j := tip_height c in
+  let new := rev new_low ++ nb :: new_high in
+  let e := evo_of old_top (rev new) in
+  dlinked t old_top j (bh fork) ->
+  alinked t (bh fork) (j - Z.of_nat (length old_top) + 1) new ->
+  differ2 old_top new_low ->
+  exists s',
+    rescan t
+      {| r_prev := top_hash old_top (bh fork); r_prevh := j;
+         r_stack := stk j old_top ++ (bh fork, j - Z.of_nat (length old_top)) :: rest;
+         r_i := j + 1; r_below := map bh new_low ++ bh fork :: deeper; r_above := map bh (nb :: new_high) |} =
+    Some (emit c e, s').
+Proof.
+  intros t anc fork rest deeper old_top new_low nb new_high. unfold rescan.
+  rewrite (eq_refl : bitcoind_rescan_steps_down = true).
+  exact (rescan_is_emit t anc fork rest deeper old_top new_low nb new_high).
+Qed.
+Print Assumptions C15_bitcoind_rescan_follows_reorg.
+
+(** PARTIAL: the theorem covers a common ancestor that is still in the
+    rescan's header list (at or above the block the rescan started from).  A
+    reorganisation that reaches BELOW the start block takes the branch that
+    asks the node for headers; it is part of the executable model and of the
+    correspondence run (witness w-rescan-reorg-below-rescan-start, generated
+    cases tagged reorg_during_rescan_below_start_block), not of this theorem. *)
+
+(** What the pinned code did (fact [false]): rescan from block 1, old branch
+    2,3,4,5 notified, node now on 1,2,3,6,7,8: the walk back never leaves the
+    loop height, disconnects every block down to the genesis block and fails
+    on the request below it ([None]; replay corpus/C15/bd_rescan_*.json shows
+    the stream of the real client); the repaired loop disconnects 5 and 4 and
+    connects 6, 7, 8. *)
+Theorem C15_bitcoind_rescan_refuted_at_pinned :
+  rescan_with false t_ex rs_ex = None /\
+  (exists s' out, rescan_with true t_ex rs_ex = Some (out, s') /\
+     disconnected out = [(4, 5%N); (3, 4%N)] /\
+     out = [NDisconnect {| m_height := 4; m_hash := 5%N; m_time := 104 |};
+            NDisconnect {| m_height := 3; m_hash := 4%N; m_time := 103 |};
+            NConnect {| m_height := 3; m_hash := 6%N; m_time := 113 |};
+            NConnect {| m_height := 4; m_hash := 7%N; m_time := 114 |};
+            NConnect {| m_height := 5; m_hash := 8%N; m_time := 115 |}]).
+Proof. exact rescan_refuted_at_pinned. Qed.
+Print Assumptions C15_bitcoind_rescan_refuted_at_pinned.
+
+(** The premises of [C15_bitcoind_rescan_follows_reorg] are satisfiable: tree
+    [t_ex], fork = block 3 at height 2, old branch 5,4, new branch 6,7 then 8. *)
+Example C15_bitcoind_rescan_nonvacuous :
+  let b (i : N) (tm : Z) := {| bh := i; bt := tm |} in
+  let anc := [b 1%N 100; b 2%N 101; b 3%N 102] in
+  tip_height (anc ++ rev [b 5%N 104; b 4%N 103]) = 4 /\
+  dlinked t_ex [b 5%N 104; b 4%N 103] 4 3%N /\
+  alinked t_ex 3%N (4 - 2 + 1) (rev [b 7%N 114; b 6%N 113] ++ b 8%N 115 :: []) /\
+  differ2 [b 5%N 104; b 4%N 103] [b 7%N 114; b 6%N 113].
+Proof.
+  cbv zeta. split; [reflexivity|]. split; [|split].
+  - repeat split; vm_compute; reflexivity.
+  - repeat split; vm_compute; reflexivity.
+  - repeat split; discriminate.
 Qed.
 
 (** * Non-vacuity *)
